@@ -296,6 +296,16 @@ def ip_exact(prefix, fn, n, ctx=1, alphabet=False, **kw):
     return q
 
 
+def ip_struct6(prefix, N, timeout):
+    """structured IPv6 family up to the maximum textual length (45) and one beyond"""
+    q = ip_query(prefix, 6, N, 1, ['accepted-double-colon', 'accepted-trailing-dc', 'accepted-v4-tail'], timeout=timeout)
+    q.name += '-struct'
+    q.defs.append('-DVF_STRUCT6')
+    q.solver = 'cadical'
+    q.bounds = {'max_len': N, 'structure': 'one symbolic hex fill digit, ":" at <= 9 and "." at <= 4 symbolic positions, one arbitrary byte'}
+    return q
+
+
 def c05_queries(tier):
     qs = []
     v6c = ['accepted-double-colon', 'accepted-trailing-dc', 'accepted-v4-tail']
@@ -322,6 +332,7 @@ def c05_queries(tier):
         q.solver = 'cadical'
         q.bounds = {'max_len': 24, 'structure': 'one symbolic hex fill digit, ":" at <= 9 and "." at <= 4 symbolic positions, one arbitrary byte'}
         qs.append(q)
+        qs.append(ip_struct6('C05', 46, 5000))
         qs.append(ip_query('C05', 0, 12, 1, ['accepted-v6', 'accepted-v4'], timeout=3000))
     Nb = 20 if tier == 'quick' else 40
     qs += [email_query('C05', m, Nb, covers=['end', 'accepted-literal', 'accepted-tagged-v6', 'accepted-v4', 'accepted-untagged-v6'],
